@@ -13,6 +13,7 @@ use std::time::Duration;
 pub mod embedprops;
 pub mod handleprops;
 pub mod pairprops;
+pub mod panicprops;
 pub mod pathprops;
 pub mod timeprops;
 pub mod treeprops;
@@ -24,6 +25,7 @@ pub fn run_check(ctx: &Ctx, id: &str) -> i32 {
         "C04" => handleprops::run_c04(ctx),
         "C14" => handleprops::run_c14(ctx),
         "C02" => pairprops::run_c02(ctx),
+        "C13" => panicprops::run_c13(ctx),
         "C11" => xferprops::run_c11(ctx),
         "C19" => timeprops::run_c19(ctx),
         "C18" => embedprops::run_c18(ctx),
